@@ -126,7 +126,31 @@ def try_replay(path, verbose=False):
     params, req, ens = c
     inputs = js.get('inputs', {})
     args = []
+    pre_decls = []
+    memory = inputs.get('memory', {})
+    pointers = inputs.get('pointers', {})
     for i, (ty, nm) in enumerate(params):
+        if ty.rstrip().endswith('*'):
+            # pointer parameter: rebuild the object __CPROVER_is_fresh allocated for it in the counterexample
+            obj = pointers.get(nm) or pointers.get(nm + '_wrapper')
+            if obj is None or obj not in memory:
+                return False
+            base = ty.replace('const ', '').rstrip().rstrip('*').strip()
+            paths = memory[obj]
+            var = nm + '_obj'
+            idx = [int(m.group(1)) for pth in paths for m in [re.match(r'^\[(\d+)l?\]$', pth)] if m]
+            if idx:
+                pre_decls.append('  static %s %s[%d];' % (base, var, max(idx) + 1))
+            else:
+                pre_decls.append('  static %s %s;' % (base, var))
+            for pth, val in paths.items():
+                lit = cval(val, None)
+                if lit is None or pth.endswith('$pad') or '$pad' in pth:
+                    continue
+                pth2 = re.sub(r'\[(\d+)l\]', r'[\1]', pth)
+                pre_decls.append('  %s%s = %s;' % (var, pth2, lit))
+            args.append((ty, nm, ('%s' % var) if idx else ('&%s' % var)))
+            continue
         v = inputs.get('a%d' % i)
         lit = cval(v, ty)
         if lit is None:
@@ -140,8 +164,9 @@ def try_replay(path, verbose=False):
     src.append(defines_of(header))
     src.append(getattr(bind, 'NATIVE_OPAQUE', ''))
     src.append('int main() {')
+    src.extend(pre_decls)
     for ty, nm, lit in args:
-        src.append('  %s %s = %s;' % (ty.replace('const ', ''), nm, lit))
+        src.append('  %s %s = %s;' % (ty, nm, lit))
     src.append('  bool req_ = true;')
     for r in req:
         src.append('  req_ = req_ && (%s);' % r)
